@@ -12,10 +12,12 @@
    Element values are abstract integers ([String] element buffers are always-safe values;
    only [==] on elements is used by the helpers).
 
-   template <typename T> struct __redu_list { T *data; size_t size; };
-   has NO destructor and NO copy constructor / assignment: copying the struct copies the
-   pointer, and a struct that goes out of scope frees nothing.  A list value is therefore
-   just the pair (pointer, size). *)
+   template <typename T> struct __redu_list { T *data; size_t size; ... };
+   is a VALUE type (rule of five): the copy constructor / copy assignment allocate a buffer of
+   their own and copy the cells ([list_copy], [list_assign]), the move constructor / move
+   assignment steal the buffer of a temporary ([list_move_assign]) and the destructor runs
+   delete[] data ([list_destroy]).  A list value is the pair (pointer, size); every pointer has
+   exactly one owner. *)
 From Coq Require Import ZArith List Bool Arith.
 Import ListNotations.
 
@@ -237,16 +239,35 @@ Definition list_remove_a (h : heap) (l : lval) (a : argv) : res (heap * lval) :=
   if size l =? 0 then Safe (h, l)
   else do v <- arg_read h a; list_remove h l v.
 
-(* [same] is the C++ test &dest == &source (the two arguments are the same variable) *)
+(* __redu_list_assign(dest, source) is `dest = source;`, the copy assignment operator:
+     if (this != &other) { T *next = other.size ? new T[other.size] : nullptr; copy; delete[] data; data = next; size = other.size; }
+   [same] is the C++ test this == &other (the two operands are the same variable).  The new buffer is
+   filled BEFORE the old one is released, so a source that shares dest's buffer is still read alive. *)
 Definition list_assign (h : heap) (dest source : lval) (same : bool) : res (heap * lval) :=
   if same then Safe (h, dest)
   else
-    do h1 <- (match data dest with None => Safe h | Some _ => hfree h (data dest) end);
     let sz := size source in
-    let '(h2, d) := (if sz =? 0 then (h1, None)
-                     else let '(hh, b) := alloc h1 sz in (hh, Some b)) in
-    do h3 <- copy_loop h2 (data source) d 0 sz;
+    let '(h1, d) := (if sz =? 0 then (h, None)
+                     else let '(hh, b) := alloc h sz in (hh, Some b)) in
+    do h2 <- copy_loop h1 (data source) d 0 sz;
+    do h3 <- hfree h2 (data dest);
     Safe (h3, mklist d sz).
+
+(* __redu_list(const __redu_list &other): data(nullptr), size(other.size); if (size != 0) { data = new T[size]; copy } *)
+Definition list_copy (h : heap) (source : lval) : res (heap * lval) :=
+  let sz := size source in
+  let '(h1, d) := (if sz =? 0 then (h, None)
+                   else let '(hh, b) := alloc h sz in (hh, Some b)) in
+  do h2 <- copy_loop h1 (data source) d 0 sz;
+  Safe (h2, mklist d sz).
+
+(* ~__redu_list() { delete[] data; } *)
+Definition list_destroy (h : heap) (l : lval) : res heap := hfree h (data l).
+
+(* dest = <temporary>: the move assignment  delete[] data; data = other.data; size = other.size; other = {} *)
+Definition list_move_assign (h : heap) (dest tmp : lval) : res (heap * lval) :=
+  do h1 <- hfree h (data dest);
+  Safe (h1, tmp).
 
 (* number of iterations of  for (value = start; value < stop; value += step)  (step > 0)
    resp. value > stop (step < 0); closed form = CPython's range length.  C int overflow
